@@ -169,11 +169,16 @@ theorem Stable.allocNote (s : State) {k : NoteId} (par : Option NoteId) (dl : Dl
   · intro j h hf; simp [upd_apply, hne j h, hf]
   · intro j h; simp [upd_apply, hne j h]
 
+theorem Stable.newExpiry (s : State) (n : NoteId) (k : DK) : Stable s (newExpiry s n k) := by
+  unfold Note.newExpiry; split
+  · exact Stable.setExpiry _ _ _
+  · exact Stable.refl _
+
 theorem Stable.afterDeadline (s : State) (t : Tid) (n : NoteId) (nt : Dl) (k : DK) :
     Stable s (afterDeadline s t n nt k) := by
   unfold Note.afterDeadline; split
-  · exact (Stable.markBorn s n).trans (Stable.setPc _ _ _)
-  · exact Stable.setPc _ _ _
+  · exact ((Stable.newExpiry s n k).trans (Stable.markBorn _ n)).trans (Stable.setPc _ _ _)
+  · exact (Stable.newExpiry s n k).trans (Stable.setPc _ _ _)
 
 theorem Stable.afterNotify (s : State) (t : Tid) (n : NoteId) (k : NK) :
     Stable s (afterNotify s t n k) := by
